@@ -23,6 +23,7 @@ RULE = ("2..6 concurrent raw-peer sessions with seeded schedules over {connect, 
         "never raises and stays within [0, max].  distinct = distinct (limits, transcript set) signatures; non-trivial = at "
         "least one refusal or abnormal ending occurred.")
 RULE += ("  " + 'Also: a server-wide write limit so that sessions end while replies are still queued behind the throttle.')
+RULE += ("  " + 'Also: a re-login while a transfer of the session is in flight, then the session vanishes.')
 ASSUMPTIONS = ["counter values are read from AvailableConnections.value (read-only); the black-box re-admission check does not "
                "depend on them", "MemoryUserManager"]
 REQUIRED_MONITORS = ["blackbox_readmission", "bound_at_events"]  # counter reads and the contract use internals and are optional
